@@ -432,7 +432,9 @@ theorem edge_process_succeeds (tol : Option (α × DistanceUnit)) (mapping : Lis
 `EdgeRtreeInputPlugin::process` succeeds exactly when the origin — and the destination, if there is one — has a
 nearest admissible candidate (first admissible in the nearest-first list, the skipped ones inadmissible) whose
 great-circle distance, converted into the tolerance unit, is ≤ the tolerance (any such candidate when no tolerance
-is configured).  "Beyond the tolerance yields an error and never a match; within tolerance always matches." -/
+is configured).  "Beyond the tolerance yields an error and never a match; within tolerance always matches."
+`Matchable` on the right-hand side carries `LookupCovers` of the skipped candidates (a skipped candidate
+without a lookup entry is an error of the plugin, not a skip). -/
 theorem edge_tolerance_process (tol : Option (α × DistanceUnit)) (mapping : List (String × Nat)) (hasLookup : Bool)
     (kvs : List (String × Json)) (oc dc : List (ECand α)) (classes : Option (List Nat)) (hasDst : Bool)
     (hr : readRoadClasses mapping (.obj kvs) = .ok classes)
@@ -769,8 +771,9 @@ theorem vertex_builder_ok_iff (cfg : Json) (fileExists fileParses : Bool) (r : O
           | false => simp
           | true => simp [eq_comm]
 
-/-- `EdgeRtreeInputPlugin::new` accepts exactly readable files without an empty linestring whose road-class
-lookup, if any, has the network's size -/
+/-- (by construction of the model: `edgeNew`'s match cascade read as one statement — its tie to the code is
+the builder stream) `EdgeRtreeInputPlugin::new` accepts exactly readable files without an empty linestring
+whose road-class lookup, if any, has the network's size -/
 theorem edge_new_ok_iff (files : EdgeFiles) (tol : Option (Nat × DistanceUnit)) (hasRc hasVr : Bool) (pl : EdgePlugin) :
     edgeNew files tol hasRc hasVr = .ok pl ↔
       (⟨tol, hasRc, hasVr⟩ : EdgePlugin) = pl ∧ files.emptyLinestring = false ∧ files.nonFinite = false ∧
@@ -781,7 +784,7 @@ theorem edge_new_ok_iff (files : EdgeFiles) (tol : Option (Nat × DistanceUnit))
   cases hasRc <;> cases hasVr <;> cases geo <;> cases empty <;> cases nonfin <;> cases rok <;> cases rcl <;> simp <;>
     (split <;> simp_all)
 
-/-- `EdgeRtreeInputPluginBuilder::build` accepts exactly the configurations whose `geometry_input_file` is a
+/-- (by construction of the model, as `edge_new_ok_iff`) `EdgeRtreeInputPluginBuilder::build` accepts exactly the configurations whose `geometry_input_file` is a
 string, whose optional file entries are strings, whose tolerance / unit / road-class-parser entries deserialise,
 and whose files `EdgeRtreeInputPlugin::new` accepts (`edge_new_ok_iff`); the plugin is then the one `new` makes
 with the tolerance of `builder_tolerance_resolution`.  Every other configuration is an error value. -/
